@@ -69,6 +69,7 @@ type frame struct {
 	curInstr  ssa.Instruction
 	symIter   map[int]int
 	isDefer   bool
+	skipPhi   bool
 	caller    *frame
 }
 
@@ -528,6 +529,11 @@ func (ex *Exec) load(p PtrV) Value {
 		if o.symN != nil {
 			ex.unsupported("load of whole symbolic-size array")
 		}
+		if p.viewLen > 0 {
+			e := make([]Value, p.viewLen)
+			copy(e, o.elems[p.base:p.base+int64(p.viewLen)])
+			return &ArrayV{e: e}
+		}
 		e := make([]Value, len(o.elems))
 		copy(e, o.elems)
 		return &ArrayV{e: e}
@@ -559,6 +565,10 @@ func (ex *Exec) store(p PtrV, v Value) {
 		av, ok := v.(*ArrayV)
 		if !ok {
 			panic(fmt.Sprintf("store: whole array with %T", v))
+		}
+		if p.viewLen > 0 {
+			copy(o.elems[p.base:p.base+int64(p.viewLen)], av.e)
+			return
 		}
 		copy(o.elems, av.e)
 		return
@@ -837,6 +847,9 @@ func (ex *Exec) callValueDefer(fv Value, args []Value, parent *frame) {
 }
 
 func (ex *Exec) runtimePanic(msg string) {
+	if ex.specMode {
+		panic(specAbort{})
+	}
 	panic(&goPanic{rt: msg, val: IfaceV{typ: ex.eng.runtimeErrorType(), val: concStr(msg)}, stack: ex.stackString()})
 }
 
@@ -844,6 +857,9 @@ func (ex *Exec) runtimePanic(msg string) {
 func (ex *Exec) check(ok *Term, msg string) {
 	if ok.isConst && ok.u == 1 {
 		return
+	}
+	if ex.specMode {
+		panic(specAbort{})
 	}
 	if !ex.branch(ok) {
 		ex.runtimePanic(msg)
@@ -859,7 +875,16 @@ func (ex *Exec) execBlocks(fr *frame, b *ssa.BasicBlock) {
 		fr.block = b
 		// phis first (parallel assignment)
 		nphi := 0
-		if fr.prev != nil {
+		if fr.skipPhi {
+			// phis were already set by an if-conversion
+			fr.skipPhi = false
+			for _, in := range b.Instrs {
+				if _, ok := in.(*ssa.Phi); !ok {
+					break
+				}
+				nphi++
+			}
+		} else if fr.prev != nil {
 			var predIdx = -1
 			for i, p := range b.Preds {
 				if p == fr.prev {
@@ -896,6 +921,11 @@ func (ex *Exec) execBlocks(fr *frame, b *ssa.BasicBlock) {
 				var taken bool
 				if c.isConst {
 					taken = c.u == 1
+				} else if j := ex.ifConvert(fr, b, c); j != nil {
+					// both sides were pure: merged into ite terms, no fork
+					fr.skipPhi = true
+					next = j
+					break
 				} else {
 					if fr.symIter == nil {
 						fr.symIter = map[int]int{}
@@ -1099,7 +1129,9 @@ func (ex *Exec) arrayPtrOfSlice(s SliceV, n int) PtrV {
 	if o == 0 && s.arr.symN == nil && len(s.arr.elems) == n {
 		return PtrV{obj: s.arr}
 	}
-	// create a view object sharing nothing: not supported generally
+	if s.arr.symN == nil && o >= 0 && int(o)+n <= len(s.arr.elems) {
+		return PtrV{obj: s.arr, base: o, viewLen: n}
+	}
 	ex.unsupported("slice-to-array-pointer at offset %d of object size %d", o, len(s.arr.elems))
 	return PtrV{}
 }
@@ -1220,6 +1252,12 @@ func (ex *Exec) snapshot(v Value) Value {
 	case *StructV:
 		var nf []Value
 		for i, f := range x.f {
+			// only struct and promoted-array fields can change
+			switch f.(type) {
+			case *StructV, *ArrayRef:
+			default:
+				continue
+			}
 			g := ex.snapshot(f)
 			if g != f {
 				if nf == nil {
